@@ -47,6 +47,11 @@ class DefEvents:
     """collect definition events of the index sets of one tracked IndexSetHolder"""
 
     MAX_DEPTH = 10
+    store_events = True       # stores into a tracked index set are definition events
+    bind_const = False        # follow tracked objects into const parameters too (readers)
+
+    def node_event(self, x, env, inits, members, guards, fn, chain):
+        """hook for subclasses: further events at node x"""
 
     def __init__(self, facts):
         self.facts = facts
@@ -270,10 +275,11 @@ class DefEvents:
                     lhs = x["lhs"]
                 elif k == "OpCall" and x.get("op") == "=" and len(x.get("a", [])) == 2:
                     lhs = x["a"][0]
-                if lhs is not None:
+                if lhs is not None and self.store_events:
                     d = self.resolve(lhs_root(lhs), env, inits, members)
                     if d is not None and d[0] == "S":
                         self.events.append(Event(d[1], d[2], tuple(g), fn, x.get("l"), chain))
+                self.node_event(x, env, inits, members, tuple(g), fn, chain)
                 if k == "MCall" and x.get("obj") is not None and not x.get("cconst") and x.get("n") not in ACCESSORS:
                     d = self.resolve(x["obj"], env, inits, members)
                     if d is not None and "unique_ptr" not in x.get("callee", ""):
@@ -293,7 +299,7 @@ class DefEvents:
                                         self.escapes.append(("%s handed to %s, whose body is not in the fact base" % (d, cal), fn, x.get("l")))
                         else:
                             for d, p in zip(descs, target.params):
-                                if d is not None and not target.type(p["t"]).lstrip().startswith("const "):
+                                if d is not None and (self.bind_const or not target.type(p["t"]).lstrip().startswith("const ")):
                                     bound[p["d"]] = d
                     if target is not None and bound:
                         self.analyse(target, bound, (), tuple(g), chain, depth + 1)
@@ -466,3 +472,361 @@ def null_path_derefs(fn, name):
 
     run(fn.body, {("U", None)})
     return out
+
+
+# -------------------------------------------------------------------------------------------------------------------
+# (4) application of a mesh permutation to the target sets of a mesh part: which dimensions, under which conditions
+# -------------------------------------------------------------------------------------------------------------------
+
+def _cint(n):
+    n = strip_casts(n)
+    if n is None:
+        return None
+    if n.get("k") == "Int":
+        return int(n["v"])
+    if n.get("k") == "Ref" and "v" in n:
+        return int(n["v"])
+    if n.get("k") == "Bin" and n.get("op") in ("+", "-", "<", ">", "<=", ">=", "==", "!="):
+        a, b = _cint(n["lhs"]), _cint(n["rhs"])
+        if a is not None and b is not None:
+            return {"+": a + b, "-": a - b, "<": int(a < b), ">": int(a > b), "<=": int(a <= b), ">=": int(a >= b), "==": int(a == b), "!=": int(a != b)}[n["op"]]
+    if n.get("k") == "Cond":
+        c = _cint(n["c"])
+        if c is not None:
+            return _cint(n["then"] if c else n["else"])
+    if n.get("k") == "Bool":
+        return int(bool(n["v"]))
+    return None
+
+
+class PermEvents(DefEvents):
+    """tracked: ('P',) a MeshPermutation object, ('A', kind) its whole forward / inverse permutation array, ('E', kind, d) the
+    permutation of dimension d.  Events: TargetSet::permute_map(x) with x = ('E', kind, d)  ->  Event(m=d, f=0 for the inverse /
+    1 for the forward permutation).  Guards: emptiness tests of P (all dimensions, d = -1) or of one dimension's permutation."""
+
+    store_events = False
+    bind_const = True
+
+    def resolve(self, n, env, inits, members, depth=0):
+        n = strip_casts(n)
+        if n is None or depth > 12:
+            return None
+        k = n.get("k")
+        if k == "Un" and n.get("op") in ("*", "&"):
+            return self.resolve(n["e"], env, inits, members, depth + 1)
+        if k == "Ref":
+            if n.get("d") in env:
+                return env[n["d"]]
+            if n.get("dk") == "local" and n.get("d") in inits and inits[n["d"]].get("init") is not None:
+                var = inits[n["d"]]
+                if var.get("ref") or "*" in (var.get("_ty") or "") or var.get("const") or (var.get("_ty") or "").lstrip().startswith("const "):
+                    return self.resolve(var["init"], env, inits, members, depth + 1)
+            return None
+        if k in ("Construct", "TempObj") and len(n.get("a", [])) == 1 and n.get("copy"):
+            return self.resolve(n["a"][0], env, inits, members, depth + 1)
+        if k == "MCall" and n.get("obj") is not None:
+            o = self.resolve(n["obj"], env, inits, members, depth + 1)
+            if o is None:
+                return None
+            nm = n.get("n")
+            if o == ("P",):
+                if nm in ("get_inv_perms", "get_perms"):
+                    return ("A", "inv" if nm == "get_inv_perms" else "fwd")
+                if nm in ("get_inv_perm", "get_perm") and n.get("a"):
+                    d = _cint(n["a"][0])
+                    return ("E", "inv" if nm == "get_inv_perm" else "fwd", d) if d is not None else None
+            if o[0] == "A":
+                if nm == "at" and n.get("a"):
+                    d = _cint(n["a"][0])
+                    return ("E", o[1], d) if d is not None else None
+                if nm in ("front",):
+                    return ("E", o[1], 0)
+            return None
+        if k == "OpCall" and n.get("op") == "[]" and len(n.get("a", [])) == 2:
+            o = self.resolve(n["a"][0], env, inits, members, depth + 1)
+            d = _cint(n["a"][1])
+            if o is not None and o[0] == "A" and d is not None:
+                return ("E", o[1], d)
+        return None
+
+    def node_event(self, x, env, inits, members, guards, fn, chain):
+        if x.get("k") == "MCall" and x.get("n") == "permute_map" and re.search(r"(^|::)TargetSet::permute_map$", x.get("callee", "")) and x.get("a"):
+            d = self.resolve(x["a"][0], env, inits, members)
+            if d is not None and d[0] == "E":
+                # dimension of the target set the permutation is applied to
+                lvl = None
+                o = strip_casts(x.get("obj"))
+                if o is not None and o.get("k") == "MCall" and o.get("n") == "get_target_set":
+                    ta = trailing_targs(o.get("cfull"))
+                    lvl = ta[0] if ta and len(ta) == 1 else None
+                elif o is not None and o.get("k") == "Member" and o.get("b", {}).get("k") == "This" and "TargetSetHolder<" in fn.cls:
+                    lvl = 0 if "Shape::Vertex" in fn.cls else shape_dim(fn.cls)
+                if lvl is not None and lvl != d[2]:
+                    self.events.append(Event(lvl, 2 + d[2], guards, fn, x.get("l"), chain))     # f >= 2: permutation of dimension f-2 applied to target set <lvl>
+                else:
+                    self.events.append(Event(d[2], 0 if d[1] == "inv" else 1, guards, fn, x.get("l"), chain))
+            elif d is not None or self._mentions(x["a"][0], env, inits, members):
+                self.escapes.append(("TargetSet::permute_map receives `%s`, whose dimension is not a constant this rule can fold" % featlib.render(x["a"][0]), fn, x.get("l")))
+
+    def _mentions(self, n, env, inits, members):
+        for x in walk(n):
+            if x.get("k") in ("Ref", "MCall", "OpCall") and self.resolve(x, env, inits, members) is not None:
+                return True
+        return False
+
+    def classify(self, cond, polarity, env, inits, members, fn):
+        c = strip_casts(cond)
+        if c is None:
+            return []
+        text = ("" if polarity else "!(") + featlib.render(c) + ("" if polarity else ")")
+        line = c.get("l")
+        if c.get("k") == "Un" and c.get("op") == "!":
+            return self.classify(c["e"], not polarity, env, inits, members, fn)
+        if c.get("k") == "Bin" and c.get("op") in ("&&", "||"):
+            if (c["op"] == "&&") == polarity:
+                return self.classify(c["lhs"], polarity, env, inits, members, fn) + self.classify(c["rhs"], polarity, env, inits, members, fn)
+            return [("unknown", text, fn, line)] if self._mentions(c, env, inits, members) else []
+        if not self._mentions(c, env, inits, members):
+            return []
+        # X.empty() / X.size() == 0 / X.size() != 0 ...
+        test = None            # (descriptor, condition true means empty?)
+        if c.get("k") == "MCall" and c.get("n") == "empty":
+            test = (self.resolve(c.get("obj"), env, inits, members), True)
+        elif c.get("k") == "Bin" and c.get("op") in ("==", "!=", ">", "<"):
+            for a, b, op in ((c["lhs"], c["rhs"], c["op"]), (c["rhs"], c["lhs"], {"<": ">", ">": "<"}.get(c["op"], c["op"]))):
+                a = strip_casts(a)
+                if a is not None and a.get("k") == "MCall" and a.get("n") == "size" and _cint(b) == 0 and op in ("==", "!=", ">"):
+                    test = (self.resolve(a.get("obj"), env, inits, members), op == "==")
+        if test is None or test[0] is None or test[0][0] not in ("P", "E"):
+            return [("unknown", text, fn, line)]
+        dim = -1 if test[0][0] == "P" else test[0][2]
+        empty_side = test[1] == polarity
+        return [("count", dim, "zero" if empty_side else "nonzero", text, fn, line)]
+
+
+# -------------------------------------------------------------------------------------------------------------------
+# (5) boundary facet selection: pointwise semantics of a facet counter array
+# -------------------------------------------------------------------------------------------------------------------
+
+class NotPointwise(Exception):
+    pass
+
+
+def facet_selection(fn):
+    """BoundaryFaceComputer::compute_all / compute_masks: the function counts, per facet, the adjacent cells in a counter array
+    (cleared, then incremented once per (cell, local facet) incidence), optionally post-processes the counters facet by facet
+    using a 0/1 facet mask parameter, and selects facets by a predicate on the counter (push_back of the facet index).
+    -> (selected: {(cells, masked): bool}, value: {(cells, masked): int}, info dict); raises NotPointwise for anything else."""
+    def ty(n):
+        return fn.ntype(n) or ""
+    inits = {}
+    for n in fn.nodes():
+        if n.get("k") == "Var":
+            inits[n["d"]] = n
+    fmask = [p for p in fn.params if re.match(r"^const std::vector<int>\s*&$", (fn.type(p["t"]) or "").strip())]
+    if len(fmask) > 1:
+        raise NotPointwise("more than one const std::vector<int>& parameter")
+    F = fmask[0]["d"] if fmask else None
+    domain = [(c, m) for c in (1, 2) for m in ((0, 1) if F is not None else (0,))]
+
+    def is_elem(n, arr, var):
+        n = strip_casts(n)
+        if n is None:
+            return False
+        if n.get("k") == "OpCall" and n.get("op") == "[]" and len(n.get("a", [])) == 2:
+            b, i = strip_casts(n["a"][0]), strip_casts(n["a"][1])
+        elif n.get("k") == "MCall" and n.get("n") == "at" and n.get("a"):
+            b, i = strip_casts(n.get("obj")), strip_casts(n["a"][0])
+        elif n.get("k") == "Index":
+            b, i = strip_casts(n["b"]), strip_casts(n["idx"])
+        else:
+            return False
+        return b is not None and b.get("k") == "Ref" and b.get("d") == arr and (var is None or (i is not None and i.get("k") == "Ref" and i.get("d") == var))
+
+    # the counter array: the std::vector<int> that is incremented at an index looked up in an index set
+    A = None
+    for n in fn.nodes():
+        tgt = None
+        if n.get("k") == "Un" and n.get("op") == "++":
+            tgt = n["e"]
+        elif n.get("k") == "Assign" and n.get("op") == "+=" and _cint(n["rhs"]) == 1:
+            tgt = n["lhs"]
+        t = strip_casts(tgt) if tgt is not None else None
+        if t is not None and t.get("k") == "OpCall" and t.get("op") == "[]" and len(t.get("a", [])) == 2:
+            b, i = strip_casts(t["a"][0]), strip_casts(t["a"][1])
+            if b.get("k") == "Ref" and "std::vector<int>" in ty(b) and i.get("k") in ("OpCall", "MCall") and "IndexSet<" in i.get("callee", ""):
+                if A is not None and A != b["d"]:
+                    raise NotPointwise("two counter arrays")
+                A = b["d"]
+    if A is None:
+        raise NotPointwise("no facet counter array (incremented at an index-set entry) found")
+
+    def touches(n, d):
+        return any(x.get("k") == "Ref" and x.get("d") == d for x in walk(n))
+
+    val = None           # {(c,m): int}
+    selected = {k: False for k in domain}
+    info = {"select_lines": [], "post_lines": [], "faces": None}
+    cleared = False
+
+    def ev(n, env):
+        n = strip_casts(n)
+        k = n.get("k")
+        if k == "Int":
+            return int(n["v"])
+        if k == "Bool":
+            return int(bool(n["v"]))
+        if k in ("Construct", "TempObj") and len(n.get("a", [])) == 1:
+            return ev(n["a"][0], env)
+        if is_elem(n, A, env["var"]):
+            return env["a"]
+        if F is not None and is_elem(n, F, env["var"]):
+            return env["m"]
+        if k == "Ref" and "v" in n:
+            return int(n["v"])
+        if k == "Ref" and n.get("d") in env.get("locals", {}):
+            return env["locals"][n["d"]]
+        if k == "Un" and n.get("op") in ("!", "-", "+"):
+            v = ev(n["e"], env)
+            return int(not v) if n["op"] == "!" else (-v if n["op"] == "-" else v)
+        if k == "Cond":
+            return ev(n["then"], env) if ev(n["c"], env) else ev(n["else"], env)
+        if k == "Bin":
+            op = n["op"]
+            if op == "&&":
+                return int(bool(ev(n["lhs"], env)) and bool(ev(n["rhs"], env)))
+            if op == "||":
+                return int(bool(ev(n["lhs"], env)) or bool(ev(n["rhs"], env)))
+            a, b = ev(n["lhs"], env), ev(n["rhs"], env)
+            if op in ("/", "%") and b == 0:
+                raise NotPointwise("division by zero in a facet expression")
+            return {"+": a + b, "-": a - b, "*": a * b, "/": int(a / b) if b else 0, "%": a % b if b else 0, "==": int(a == b), "!=": int(a != b), "<": int(a < b), ">": int(a > b),
+                    "<=": int(a <= b), ">=": int(a >= b), "&": a & b, "|": a | b, "^": a ^ b}[op]
+        if k == "Call" and n.get("callee", "").split("<")[0] in ("std::max", "std::min", "FEAT::Math::max", "FEAT::Math::min") and len(n.get("a", [])) == 2:
+            a, b = ev(n["a"][0], env), ev(n["a"][1], env)
+            return max(a, b) if n["callee"].split("<")[0].endswith("max") else min(a, b)
+        raise NotPointwise("expression `%s` (line %s) is not a pointwise function of the facet's counter and mask" % (featlib.render(n), n.get("l")))
+
+    def run_body(st, env):
+        """executes one facet's loop body; env['a'] is updated; returns False after a continue"""
+        if st is None:
+            return True
+        k = st.get("k")
+        if k == "Block":
+            for s_ in st.get("s", []):
+                if not run_body(s_, env):
+                    return False
+            return True
+        if k == "If":
+            c = ev(st["c"], env) if (touches(st["c"], A) or (F is not None and touches(st["c"], F)) or any(touches(st["c"], d) for d in env.get("locals", {}))) else None
+            if c is None:
+                if touches(st, A) or (info["faces"] is not None and touches(st, info["faces"])) or any(x.get("k") == "MCall" and x.get("n") == "push_back" for x in walk(st)):
+                    raise NotPointwise("facet statement under the condition `%s` (line %s), which does not depend on the facet's counter/mask" % (featlib.render(st["c"]), st.get("l")))
+                return True
+            return run_body(st.get("then") if c else st.get("else"), env)
+        if k == "Continue":
+            return False
+        if k == "Decl":
+            for v in st.get("vars", []):
+                if v.get("init") is not None and (touches(v["init"], A) or (F is not None and touches(v["init"], F))):
+                    if v.get("ref"):
+                        raise NotPointwise("reference alias of a facet entry (line %s)" % st.get("l"))
+                    env.setdefault("locals", {})[v["d"]] = ev(v["init"], env)
+            return True
+        if k in ("Assign",) and is_elem(st["lhs"], A, env["var"]):
+            r = ev(st["rhs"], env)
+            op = st["op"]
+            env["a"] = r if op == "=" else {"+=": env["a"] + r, "-=": env["a"] - r, "*=": env["a"] * r, "&=": env["a"] & r, "|=": env["a"] | r}.get(op)
+            if env["a"] is None:
+                raise NotPointwise("compound assignment %s" % op)
+            env["wrote"] = st.get("l")
+            return True
+        if k == "Un" and st.get("op") in ("++", "--") and is_elem(st["e"], A, env["var"]):
+            env["a"] += 1 if st["op"] == "++" else -1
+            env["wrote"] = st.get("l")
+            return True
+        if k == "MCall" and st.get("n") in ("push_back", "emplace_back") and st.get("a"):
+            a0 = strip_casts(st["a"][0])
+            o = strip_casts(st.get("obj"))
+            if a0 is not None and a0.get("k") == "Ref" and a0.get("d") == env["var"] and o is not None and o.get("k") == "Ref":
+                if info["faces"] not in (None, o["d"]):
+                    raise NotPointwise("facet indices are collected in two containers")
+                info["faces"] = o["d"]
+                env["selected"] = True
+                env["sel_line"] = st.get("l")
+                return True
+        if touches(st, A) and any(x.get("k") in ("Assign", "Un") for x in walk(st)):
+            raise NotPointwise("statement `%s` (line %s) modifies the facet counters in a form this rule does not model" % (featlib.render(st)[:80], st.get("l")))
+        return True            # counters of other things, assertions, ...
+
+    def loop_var_over_all(st):
+        """for(T v(0); v < size-of(A or F); ++v) -> decl id of v"""
+        init, c, inc = st.get("init"), strip_casts(st.get("c")), st.get("inc")
+        if not (init and init.get("k") == "Decl" and len(init["vars"]) == 1 and _cint(init["vars"][0].get("init")) == 0 and c is not None and c.get("k") == "Bin" and c.get("op") in ("<", "!=")
+                and inc is not None and inc.get("k") == "Un" and inc.get("op") == "++"):
+            return None
+        v = init["vars"][0]["d"]
+        lhs, rhs = strip_casts(c["lhs"]), strip_casts(c["rhs"])
+        if not (lhs.get("k") == "Ref" and lhs.get("d") == v):
+            return None
+        while rhs is not None and rhs.get("k") in ("Construct", "TempObj") and len(rhs.get("a", [])) == 1:
+            rhs = strip_casts(rhs["a"][0])
+        if rhs is not None and rhs.get("k") == "Ref" and rhs.get("dk") == "local" and rhs.get("d") in inits and inits[rhs["d"]].get("init") is not None:
+            rhs = strip_casts(inits[rhs["d"]]["init"])
+            while rhs is not None and rhs.get("k") in ("Construct", "TempObj") and len(rhs.get("a", [])) == 1:
+                rhs = strip_casts(rhs["a"][0])
+        if rhs is not None and rhs.get("k") == "MCall" and rhs.get("n") == "size":
+            o = strip_casts(rhs.get("obj"))
+            if o is not None and o.get("k") == "Ref" and o.get("d") in (A, F):
+                return v
+        return None
+
+    for st in (fn.body.get("s", []) if fn.body.get("k") == "Block" else [fn.body]):
+        k = st.get("k")
+        if k == "MCall" and strip_casts(st.get("obj")) is not None and strip_casts(st["obj"]).get("d") == A:
+            if st.get("n") == "clear":
+                cleared, val = True, None
+                continue
+            if st.get("n") in ("resize", "assign") and len(st.get("a", [])) == 2 and _cint(st["a"][1]) is not None and (cleared or st["n"] == "assign"):
+                val = {k_: _cint(st["a"][1]) for k_ in domain}
+                continue
+            if st.get("n") in ("size", "reserve"):
+                continue
+            raise NotPointwise("counter array operation %s (line %s)" % (st.get("n"), st.get("l")))
+        if k in ("For", "ForRange", "While") and (touches(st, A) or (info["faces"] is not None and touches(st, info["faces"])) or any(x.get("k") == "MCall" and x.get("n") == "push_back" for x in walk(st))):
+            writes = [x for x in walk(st) if (x.get("k") == "Un" and x.get("op") in ("++", "--") and touches(x["e"], A) and strip_casts(x["e"]).get("k") == "OpCall")
+                      or (x.get("k") == "Assign" and touches(x["lhs"], A))]
+            counting = [x for x in writes if not is_elem(x.get("e") if x.get("k") == "Un" else x.get("lhs"), A, None) or
+                        strip_casts((strip_casts(x.get("e") if x.get("k") == "Un" else x.get("lhs")) or {}).get("a", [None, None])[1] or {}).get("k") in ("OpCall", "MCall")]
+            if counting:
+                if len(writes) != 1 or val is None or any(v != 0 for v in val.values()):
+                    raise NotPointwise("the incidence counting loop (line %s) does not start from cleared counters or writes them twice" % st.get("l"))
+                w = writes[0]
+                if not ((w.get("k") == "Un" and w.get("op") == "++") or (w.get("k") == "Assign" and w.get("op") == "+=" and _cint(w["rhs"]) == 1)):
+                    raise NotPointwise("the incidence loop does not increment by one (line %s)" % w.get("l"))
+                val = {k_: k_[0] for k_ in domain}
+                info["count_line"] = w.get("l")
+                continue
+            v = loop_var_over_all(st) if k == "For" else None
+            if v is None:
+                raise NotPointwise("loop at line %s touches the facet counters but is not a loop over all facets" % st.get("l"))
+            if val is None:
+                raise NotPointwise("facet loop (line %s) before the counters are defined" % st.get("l"))
+            new = {}
+            for k_ in domain:
+                env = {"var": v, "a": val[k_], "m": k_[1]}
+                run_body(st.get("body"), env)
+                new[k_] = env["a"]
+                if env.get("selected"):
+                    selected[k_] = True
+                    if env["sel_line"] not in info["select_lines"]:
+                        info["select_lines"].append(env["sel_line"])
+                if env.get("wrote") and env["wrote"] not in info["post_lines"]:
+                    info["post_lines"].append(env["wrote"])
+            val = new
+            continue
+        if featlib.is_call(st) and info["faces"] is not None:
+            break              # the selected facets are handed on: end of the facet phase
+    if info["faces"] is None:
+        raise NotPointwise("no selection of facets (push_back of the facet index under a condition on its counter) found")
+    return selected, val, info
